@@ -31,11 +31,10 @@ PREAMBLE = "From PV Require Import Params.Model.\nFrom Coq Require Import NArith
 
 # findings confirmed on the unchanged tree (ids to be listed in known_findings.jsonl)
 FINDINGS = {
-    "C12-D1-startup-latin1": "startup parameter values are decoded byte-by-byte as Latin-1 (messages.rs parse_params `tmp.push(c as char)`): a non-ASCII UTF-8 value such as application_name=café is told back to the client and SET on the server as cafÃ©",
-    "C12-D2-startup-key-case": "tracked startup parameters are recognised only in the spellings client_encoding/DateStyle/datestyle/TimeZone/timezone/standard_conforming_strings/application_name: TIMEZONE=Europe/Paris or Application_Name=x (valid for PostgreSQL, names are case-insensitive) are silently dropped; the client is told and gets the pool's value",
-    "C12-D3-startup-empty-value": "parse_params skips empty strings: one startup parameter with an empty value (application_name='') makes pgcat refuse the connection (ClientBadStartup), two shift names and values against each other (application_name becomes 'client_encoding')",
     "C12-D4-invalid-startup-value": "a tracked startup value the server refuses (e.g. client_encoding=LATIN9X) is accepted and told to the client; the SET batch at every checkout then fails as a whole, its ErrorResponse is ignored by sync_parameters, so NONE of the client's parameters is applied and its statements run with the previous client's application_name/TimeZone",
 }
+# repaired (5c1953d, 68af9b4): C12-D1-startup-latin1, C12-D2-startup-key-case, C12-D3-startup-empty-value -
+# their inputs are ordinary inputs of the generator now and must pass every monitor
 
 
 # ----------------------------------------------------------------------------- helpers
@@ -190,40 +189,29 @@ class Scn:
         flags = set()
         keys = [k for k in TRACKED if rng.random() < 0.45]
         for k in keys:
-            sp = k
-            if k in ("DateStyle", "TimeZone") and rng.random() < 0.5:
+            r = rng.random()
+            if r < 0.55:
+                sp = k
+            elif r < 0.75:
                 sp = k.lower()
+            elif r < 0.88:
+                sp = k.upper()
+            else:
+                sp = "".join(ch.upper() if rng.random() < 0.5 else ch.lower() for ch in k)     # Application_NAME ...
             if k == "standard_conforming_strings":
                 v = rng.choice([b"on", b"off"])
             else:
-                v = gen_value(rng, allow_empty=False, ascii_only=True, maxlen=self.maxlen)
+                v = gen_value(rng, allow_empty=True, ascii_only=False, maxlen=self.maxlen)     # empty and non-ASCII included
             pairs.append((sp.encode(), v))
-        cl = rng.choice(classes) if classes and rng.random() < 0.5 else None
-        if cl == "nonascii":
-            pairs = [p for p in pairs if p[0] != b"application_name"]
-            pairs.append((b"application_name", rng.choice(NONASCII)))
-            flags.add("C12-D1-startup-latin1")
-        elif cl == "spelling":
-            k = rng.choice(["TIMEZONE", "Timezone", "DATESTYLE", "Application_Name", "CLIENT_ENCODING", "Standard_Conforming_Strings"])
-            pairs = [p for p in pairs if p[0].decode().lower() != k.lower()]
-            pairs.append((k.encode(), b"off" if k.lower().startswith("standard") else gen_value(rng, False, True, 50)))
-            flags.add("C12-D2-startup-key-case")
-        elif cl == "empty":
-            pairs = pairs[:2]
-            refused = rng.random() < 0.5
-            if refused:
-                pairs += [(b"application_name", b"")]          # odd number of strings left: ClientBadStartup
-            else:
-                pairs += [(b"application_name", b""), (b"client_encoding", b"")]
-            flags.add("C12-D3-startup-empty-value")
-            return {"name": name, "pairs": pairs, "flags": flags, "alive": True, "txn": "I", "n": 0, "refused": refused}
-        elif cl == "invalid":
+        if classes and rng.random() < 0.5:
             k = rng.choice(["client_encoding", "TimeZone", "DateStyle"])
             pairs = [p for p in pairs if p[0].decode().lower() != k.lower()]
             pairs.insert(rng.randint(2, len(pairs)), (k.encode(), (INVALID + "x").encode()))
             flags.add("C12-D4-invalid-startup-value")
         if rng.random() < 0.2:
-            pairs.append((b"extra_float_digits", b"2"))
+            pairs.insert(rng.randint(2, len(pairs)), (b"extra_float_digits", b"2"))
+        if rng.random() < 0.1:
+            pairs.insert(rng.randint(2, len(pairs)), (b"options", b""))
         return {"name": name, "pairs": pairs, "flags": flags, "alive": True, "txn": "I", "n": 0}
 
     # -- statements
@@ -283,7 +271,7 @@ class Scn:
 
     def gen_ops(self, nops):
         rng = self.rng
-        live = [c for c in self.clients if not c.get("refused")]
+        live = list(self.clients)
         for _ in range(nops):
             holders = [c for c in self.clients if c["alive"] and c["txn"] != "I"]
             cands = [c for c in live if c["alive"] and (c["txn"] != "I" or len(holders) < self.pool_size)]
@@ -719,9 +707,9 @@ def read_constants():
         defaults = re.findall(r'set_param\(\s*"([^"]+)"\.to_string\(\),\s*"([^"]*)"\.to_string\(\),\s*false', m.group(0))
     m = re.search(r"fn quote_literal\(value: &str\) -> String \{.*?\n\}", src, re.S)
     ql = re.sub(r"\s+", " ", m.group(0)) if m else None
-    recase = re.findall(r'if key == "([a-z]+)" \{\s*key = "([A-Za-z]+)"\.to_string\(\);', src) + \
-        re.findall(r'else if key == "([a-z]+)" \{\s*key = "([A-Za-z]+)"\.to_string\(\);', src)
-    return tracked, defaults, ql, sorted(set(recase))
+    m = re.search(r"pub fn set_param\(&mut self.*?\n    \}", src, re.S)
+    recase = bool(m and re.search(r"TRACKED_PARAMETERS\s*\.iter\(\)\s*\.find\(\|tracked\| tracked\.eq_ignore_ascii_case\(&key\)\)", m.group(0)))
+    return tracked, defaults, ql, recase
 
 
 QL_EXPECT = ("fn quote_literal(value: &str) -> String { let mut quoted = String::with_capacity(value.len() + 3); "
@@ -731,18 +719,19 @@ QL_EXPECT = ("fn quote_literal(value: &str) -> String { let mut quoted = String:
 
 def check_constants(run):
     tracked, defaults, ql, recase = read_constants()
-    vals = vlib.coq_eval("c12k", PREAMBLE, ["TRACKED", "sp_new", "(k_timezone, K_tz, k_datestyle, K_date)"])
+    probe = [b"TIMEZONE", b"Application_Name", b"datestyle", b"DateStyle", b"server_version", b"timezone2", b"CLIENT_encoding"]
+    vals = vlib.coq_eval("c12k", PREAMBLE, ["TRACKED", "sp_new", "map recase [%s]" % "; ".join(cb(x) for x in probe)])
     mt = [bs(x) for x in vlib.parse_coq(vals[0])]
     md = [(bs(a), bs(b)) for a, b in vlib.parse_coq(vals[1])]
-    mr = vlib.parse_coq(vals[2])
-    mrec = sorted([(bs(mr[0]), bs(mr[1])), (bs(mr[2]), bs(mr[3]))])
+    mrec = [bs(x) for x in vlib.parse_coq(vals[2])]
+    want = [LOWER2CANON.get(x.decode().lower(), x.decode()) for x in probe]
     bad = []
     if tracked is None or sorted(tracked) != sorted(mt):
         bad.append("TRACKED_PARAMETERS in src/server.rs = %r, model TRACKED = %r" % (tracked, mt))
     if defaults is None or sorted(defaults) != sorted(md):
         bad.append("ServerParameters::new defaults = %r, model sp_new = %r" % (defaults, md))
-    if recase != mrec:
-        bad.append("set_param re-casing = %r, model = %r" % (recase, mrec))
+    if not recase or mrec != want:
+        bad.append("set_param no longer maps names with eq_ignore_ascii_case over TRACKED_PARAMETERS (source shape %s), model recase %r, expected %r" % (recase, mrec, want))
     run.cov["source_constants"] = {"tracked": tracked, "defaults": defaults, "recase": recase, "quote_literal_matches_transcribed_text": ql == QL_EXPECT}
     return bad, ql
 
@@ -813,11 +802,16 @@ def boundary_scenarios(rng):
                   [("q", 0, [("set", "statement_timeout", b"5", False)]), ("q", 1, ["select"]),
                    ("q", 0, ["begin"]), ("q", 0, ["commit", ("set", "statement_timeout", b"7", False)]), ("q", 1, ["select"]),
                    ("q", 0, ["begin", ("set", "search_path", b"a,'b'", False)]), ("q", 0, ["commit"]), ("q", 1, ["select"])]))
-    # the four startup findings
-    out.append(mk(1, [([(b"application_name", "café".encode())], ["C12-D1-startup-latin1"]), ([], [])], [sel, ("q", 1, ["select"])]))
-    out.append(mk(1, [([(b"TIMEZONE", b"Europe/Paris"), (b"Application_Name", b"x")], ["C12-D2-startup-key-case"]), ([], [])], [sel, ("q", 1, ["select"])]))
-    out.append(mk(1, [([(b"application_name", b"")], ["C12-D3-startup-empty-value"]), ([], [])], [("q", 1, ["select"])]))
-    out.append(mk(1, [([(b"application_name", b""), (b"client_encoding", b"")], ["C12-D3-startup-empty-value"]), ([], [])], [sel, ("q", 1, ["select"])]))
+    # regressions of the repaired startup findings D1 (non-ASCII), D2 (name spelling), D3 (empty values): must pass now
+    for v in NONASCII:
+        out.append(mk(1, [([(b"application_name", v)], []), ([(b"TimeZone", v)], [])], [sel, ("q", 1, ["select"]), sel, ("q", 1, ["select"])]))
+    out.append(mk(1, [([(b"TIMEZONE", b"Europe/Paris"), (b"Application_Name", b"x")], []),
+                      ([(b"DATESTYLE", b"German"), (b"Client_Encoding", b"LATIN1"), (b"STANDARD_CONFORMING_STRINGS", b"off"), (b"tImEzOnE", b"a\\b'c")], [])],
+                  [sel, ("q", 1, ["select"]), sel, ("q", 1, ["select"])]))
+    out.append(mk(1, [([(b"application_name", b"")], []), ([], [])], [sel, ("q", 1, ["select"]), sel]))
+    out.append(mk(1, [([(b"application_name", b""), (b"client_encoding", b"")], []), ([(b"options", b""), (b"TimeZone", b"")], [])],
+                  [sel, ("q", 1, ["select"]), sel, ("q", 1, ["select"])]))
+    # D4 (open): a refused startup value defeats the whole sync
     out.append(mk(1, [([(b"application_name", b"app-a")], []), ([(b"application_name", b"app-b"), (b"client_encoding", b"!invalid!LATIN9X")], ["C12-D4-invalid-startup-value"])],
                   [("q", 0, ["begin"]), ("q", 0, [("set", "TimeZone", b"Europe/Paris", False)]), ("q", 0, ["commit"]), ("q", 1, ["select"]), ("q", 0, ["select"])]))
     return out
@@ -891,7 +885,7 @@ def check(run):
     scns = boundary_scenarios(rng)
     nb = len(scns)
     nrand = 300 if quick else 7000
-    classes = ["nonascii", "spelling", "empty", "invalid"]
+    classes = ["invalid"]
     for i in range(nrand):
         ps = 1 if rng.random() < 0.6 else 2
         nc = rng.choice([2, 2, 3])
@@ -963,8 +957,9 @@ def check(run):
     run.cov["evaluations"] = evals
     run.cov["distinct_nontrivial"] = len(distinct)
     run.cov["rule"] = ("scenarios = %d hand-made (every value of the nasty list as startup value and through SET on one shared connection; scs=off together with a backslash value; "
-                       "SET in committed / rolled-back / failed transactions; SET LOCAL; disconnect inside a transaction; untracked GUCs; COMMIT;SET in one message; the four startup findings) "
-                       "+ %d seeded random (2-3 clients, pool_size 1 or 2, 6-16 messages of 1-3 statements, startup sets over the five keys, values: words, quotes, backslashes, comment and "
+                       "SET in committed / rolled-back / failed transactions; SET LOCAL; disconnect inside a transaction; untracked GUCs; COMMIT;SET in one message; regressions of the repaired startup findings "
+                       "D1-D3 (non-ASCII / any-case names / empty values at startup); the open finding D4) "
+                       "+ %d seeded random (2-3 clients, pool_size 1 or 2, 6-16 messages of 1-3 statements, startup sets over the five keys in any ASCII case incl. empty and non-ASCII values, values: words, quotes, backslashes, comment and "
                        "dollar markers, newlines, non-ASCII UTF-8, empty, up to 1.5 kB; 20 kB in a hand-made one). distinct = distinct (statement shape, backend tracked values) and (key, value) pairs seen in SET batches" % (nb, nrand))
     run.cov["samples"] = samples[:4]
     run.cov["input_distribution"] = dist
